@@ -10,6 +10,8 @@ import CCVerif.Lemmas.Synth
 import CCVerif.Lemmas.SynthExact
 import CCVerif.Lemmas.SynthCorrectFrag
 import CCVerif.Lemmas.SynthCorrectHomFrag
+import CCVerif.Lemmas.SynthCorrectCompose
+import CCVerif.Lemmas.SynthCorrectRank
 /-!
 # C12 — synthesis, merge and equation yield a consistent schema and exact translations
 
@@ -1987,9 +1989,10 @@ theorem equate_correct (hA : Lawful A) (hC : ContentOnly A) (H : SchemaGen.Homom
   exact ⟨fun c hc => SchemaGen.quotient_entries hA hC hn hfc hq (V.cst c) (List.mem_map.2 ⟨c, hc, rfl⟩),
     SchemaGen.quotient_fully_correct hA hC hn hfc hq⟩
 
-/-- the statement of the clause for the whole synthesis with equations (NOT proved: the composition of
-`merge_correct`, `equate_correct` and `rename_fully_correct` through `TranslateEquations`; the three
-stages are proved separately) -/
+/-- the statement of the clause for the whole synthesis with equations, all semantic hypotheses at
+merged level (the composition of `merge_correct`, `equate_correct` and `rename_fully_correct` through
+`TranslateEquations`). PROVED at the end of the file: `synth_correct_merged`; the stronger operand-level
+form is `synth_correct`. -/
 def synth_correct_statement : Prop :=
   ∀ {D I : Type} (A : Analysis D I) (_ : Lawful A) (_ : ContentOnly A) (Q : Equivariance A)
     (H : SchemaGen.Homomorphic A) (V : View D) (_ : V.Compatible A Q) (_ : V.CompatibleHom H)
@@ -2110,5 +2113,484 @@ theorem equate_cycle_counterexample :
     have := hrk _ (List.mem_cons_of_mem _ (List.mem_cons_self ..)) "D2" (by decide) _
       (List.mem_cons_of_mem _ (List.mem_cons_self ..)) rfl
     exact Nat.lt_irrefl _ this
+
+end CCVerif.SynthCorrect
+
+/-! # Seventh part: the SEMANTIC clause, COMPOSED — the duplicate removal and the whole synthesis
+
+Like with like is needed on the equated PAIRS only (`PairsLike`, Lemmas/SynthCorrectCompose.lean):
+what `DeleteDuplicates` identifies afterwards — constituents whose definitions became token-identical —
+is alike by itself (`likeWithLike_of_pairs`: two constituents carried by one image have the same
+substituted definition, hence the same substituted entry, by induction on the rank of the image). -/
+namespace CCVerif.SynthCorrect
+open CCVerif.Translation CCVerif.Dedup CCVerif.Merge CCVerif.Equate CCVerif.Synth
+open CCVerif.SchemaGen (Analysis Lawful Equivariance ContentOnly entryOf FullyCorrect fragA
+  fragEquivariance fragA_lawful)
+
+variable {D I : Type} {A : Analysis D I}
+
+/-- **dedup_correct** (`DeleteDuplicates` alone, whatever it finds). For every lawful, content-only,
+`Homomorphic` analysis: on a fully correct schema, removing every constituent whose definition (kind,
+convention, texts) is identical to a survivor's and renaming its mentions preserves full correctness,
+and the image of every constituent — removed or not — has its old entry with the renaming
+`finalAlias` (alias ↦ alias of the image) substituted in the typification. NO further hypothesis:
+identical definitions are alike (`likeWithLike_of_pairs` with no pairs), and the removal of duplicates
+creates no cycle (`stage_acyclic_nokeys`: a fully correct schema is ranked, the least rank in a class
+of identified constituents ranks the result). -/
+theorem dedup_correct (hA : Lawful A) (hC : ContentOnly A) (H : SchemaGen.Homomorphic A) (V : View D)
+    (hV : V.CompatibleHom H) {l r : Schema} {tr : Tr} (hw : WF l) (h : dedup l = some (r, tr))
+    (hfc : FullyCorrect A (V.store l)) :
+    (∀ c ∈ l, entryOf A (V.store r) (image tr c.uid) =
+      H.homI (finalAlias l r tr) (entryOf A (V.store l) c.uid)) ∧
+    FullyCorrect A (V.store r) :=
+  stage_correct hA hC V H hV hw.1 hfc (dedup_stage hw h).1 (fun _ he => by cases he)
+    (fun _ he => by cases he) (stage_acyclic_nokeys hA V H hV hw.1 hw.2 hfc (dedup_stage hw h).1)
+
+/-- three identical terms over `X1` and a term over them: `D1 D2 D3 := X1 ∪ X1`, `D4 := D1 ∪ D3` -/
+def dupL : Schema :=
+  [ { uid := 1, alias := "X1", kind := 1, definition := [], rest := [[], [], []] },
+    { uid := 2, alias := "D1", kind := 6, definition := [.mention "X1", .sym "∪", .mention "X1"], rest := [[], [], []] },
+    { uid := 3, alias := "D2", kind := 6, definition := [.mention "X1", .sym "∪", .mention "X1"], rest := [[], [], []] },
+    { uid := 4, alias := "D3", kind := 6, definition := [.mention "X1", .sym "∪", .mention "X1"], rest := [[], [], []] },
+    { uid := 5, alias := "D4", kind := 6, definition := [.mention "D1", .sym "∪", .mention "D3"], rest := [[], [], []] } ]
+def dupR : Schema × Tr :=
+  ( [ { uid := 1, alias := "X1", kind := 1, definition := [], rest := [[], [], []] },
+      { uid := 4, alias := "D3", kind := 6, definition := [.mention "X1", .sym "∪", .mention "X1"], rest := [[], [], []] },
+      { uid := 5, alias := "D4", kind := 6, definition := [.mention "D3", .sym "∪", .mention "D3"], rest := [[], [], []] } ],
+    [(3, 4), (2, 4)] )
+
+/-- non-vacuity of `dedup_correct` on the fragment: a cascade (`D1` erases `D2`, `D3` erases `D1`); the
+hypotheses hold, and `D4 := D1 ∪ D3` becomes `D3 ∪ D3` with the same entry -/
+example : WF dupL ∧ dedup dupL = some dupR ∧ FullyCorrect fragA (fragView.store dupL) ∧
+    entryOf fragA (fragView.store dupL) 5 = { status := .verified, ty := some "X1" } ∧
+    entryOf fragA (fragView.store dupR.1) (image dupR.2 5) = { status := .verified, ty := some "X1" } :=
+  ⟨by unfold WF; decide, by decide, by decide, by decide, by decide⟩
+
+example : FullyCorrect fragA (fragView.store dupR.1) :=
+  (dedup_correct fragA_lawful fragA_contentOnly fragHom fragView fragView_compatibleHom (l := dupL)
+    (by unfold WF; decide) (by decide : dedup dupL = some dupR) (by decide)).2
+
+private theorem synth_core_renaming {op1 op2 m r : Schema} {trM trE tr1 tr2 : Tr} {tq : List Entry}
+    {R m1 : String → String} {g : Names} {freshs : List Nat}
+    (hw1 : WF op1) (hw2 : WF op2) (hm : mergeWith g freshs op1 op2 = some (m, trM))
+    (hR : StageExact m r trE tq R) (hm1 : IsMergeRenaming op2 m trM m1)
+    (h1 : ∀ c ∈ op1, c ∈ m ∧ lookup tr1 c.uid = some (image trE c.uid))
+    (h2 : ∀ c2 ∈ op2, ∃ s' ∈ m, lookup trM c2.uid = some s'.uid ∧ s'.uid ∉ uids op1 ∧
+        s'.alias ∉ aliases op1 ∧ Renamed m1 c2 s' ∧ lookup tr2 c2.uid = some (image trE s'.uid)) :
+    IsSynthRenaming op1 op2 r tr1 tr2 R (fun x => R (m1 x)) := by
+  refine ⟨?_, ?_, m1, fun _ => rfl, hm1.2, ?_, ?_⟩
+  · intro c hc s hs hl
+    refine hR.aliasOf c (h1 c hc).1 s hs ?_
+    exact Option.some.inj (hl.symm.trans (h1 c hc).2)
+  · intro c hc s hs hl
+    rcases h2 c hc with ⟨s', hs', hlM, _, _, _, hl2⟩
+    show R (m1 c.alias) = s.alias
+    rw [hm1.1 c hc s' hs' hlM]
+    exact hR.aliasOf s' hs' s hs (Option.some.inj (hl.symm.trans hl2))
+  · intro c hc
+    rcases h2 c hc with ⟨s', hs', hlM, _, hna, _, _⟩
+    rw [hm1.1 c hc s' hs' hlM]; exact hna
+  · intro x hx1 hx2
+    apply hR.off
+    intro hmem
+    rcases List.mem_map.1 hmem with ⟨s, hs, rfl⟩
+    rcases mergeWith_origin hw1.1 hw1.2 hw2.1 hw2.2 hm s hs with ho | ⟨c2, hc2, hl⟩
+    · exact hx1 (List.mem_map.2 ⟨s, ho, rfl⟩)
+    · exact hx2 c2 hc2 (hm1.1 c2 hc2 s hs hl)
+
+/-- the acyclicity of the result of a synthesis in which no equation is turned round: the copies of
+operand 2 mention copies only, every key is in operand 1 and every value a copy — rank the copies
+below operand 1 -/
+private theorem synth_acyclic_aux (hA : Lawful A) (hC : ContentOnly A) (Q : Equivariance A)
+    (H : SchemaGen.Homomorphic A) (V : View D) (hV : V.Compatible A Q) (hVH : V.CompatibleHom H)
+    {g : Names} {freshs : List Nat} {op1 op2 m res : Schema} {eqs tq : List Entry} {trM trE tr2 : Tr}
+    {R m1 : String → String}
+    (hw1 : WF op1) (hw2 : WF op2) (hm : mergeWith g freshs op1 op2 = some (m, trM))
+    (hR : StageExact m res trE tq R) (hm1 : IsMergeRenaming op2 m trM m1)
+    (h1 : ∀ c ∈ op1, c ∈ m)
+    (h2 : ∀ c2 ∈ op2, ∃ s' ∈ m, lookup trM c2.uid = some s'.uid ∧ s'.uid ∉ uids op1 ∧
+        s'.alias ∉ aliases op1 ∧ Renamed m1 c2 s' ∧ lookup tr2 c2.uid = some (image trE s'.uid))
+    (hall : ∀ e0 ∈ eqs, e0.key ∈ uids op1 ∧ e0.value ∈ uids op2)
+    (hentry : ∀ e ∈ tq, ∃ e0 ∈ eqs, e = { e0 with value := image trM e0.value } ∨
+        e = swapped { e0 with value := image trM e0.value })
+    (hpresent : ∀ e0 ∈ eqs, (needsSwap m { e0 with value := image trM e0.value } = false ∧
+          { e0 with value := image trM e0.value } ∈ tq) ∨
+        (needsSwap m { e0 with value := image trM e0.value } = true ∧
+          swapped { e0 with value := image trM e0.value } ∈ tq))
+    (hvk : ∀ e ∈ tq, e.value ∉ tkeys tq)
+    (hc1 : FullyCorrect A (V.store op1)) (hc2 : FullyCorrect A (V.store op2))
+    (r1 : Q.Ren) (hr1 : ActsLike V Q r1 m1 op2)
+    (hns : ∀ e0 ∈ eqs, ∀ k ∈ op1, ∀ v ∈ op2, k.uid = e0.key → v.uid = e0.value → swapNeeded k v = false) :
+    AcyclicSchema V A res := by
+  have hcons := merge_consistent hw1 hw2 hm
+  have hcap : NoCapture V A op1 op2 m := noCapture_of_correct hA H V m hw1.1 hw2.1 hc1 hc2
+  have hmc := merge_correct hA hC Q V hV hw1 hw2 hm hm1 r1 hr1 hcap hc1 hc2
+  have hM := merge_mergeOf Q V hV hw1 hw2 hm hm1 r1 hr1 hcap
+  have hnm : (SchemaGen.uids (V.store m)).Nodup := by rw [uids_store]; exact hcons.1.1
+  -- every entry of the translated table: key in operand 1, value a copy
+  have hshape : ∀ e ∈ tq, e.key ∈ uids op1 ∧ e.value ∈ uids m ∧ e.value ∉ uids op1 := by
+    intro e he
+    rcases hentry e he with ⟨e0, he0, hE⟩
+    rcases List.mem_map.1 (hall e0 he0).1 with ⟨k, hk1, hku⟩
+    rcases List.mem_map.1 (hall e0 he0).2 with ⟨v, hv2, hvu⟩
+    rcases h2 v hv2 with ⟨v', hv', hlM, hnew, _, hren, _⟩
+    have himg : image trM e0.value = v'.uid := by rw [← hvu]; exact image_of_lookup' hlM
+    have hnsw : needsSwap m { e0 with value := image trM e0.value } = false := by
+      rw [← hns e0 he0 k hk1 v hv2 hku hvu]
+      unfold needsSwap swapNeeded
+      show (match findUid m e0.key, findUid m (image trM e0.value) with
+        | some k, some v => k.kind != v.kind && !isBaseSet k.kind && isBaseNotion v.kind
+        | _, _ => false) = _
+      rw [himg, ← hku, findUid_of_mem hcons.1.1 (h1 k hk1), findUid_of_mem hcons.1.1 hv']
+      show (k.kind != v'.kind && !isBaseSet k.kind && isBaseNotion v'.kind) = _
+      rw [hren.1]
+    have hin : ({ e0 with value := image trM e0.value } : Entry) ∈ tq := by
+      rcases hpresent e0 he0 with ⟨_, hin⟩ | ⟨hsw, _⟩
+      · exact hin
+      · rw [hnsw] at hsw; cases hsw
+    rcases hE with rfl | rfl
+    · exact ⟨(hall e0 he0).1, by rw [himg]; exact List.mem_map.2 ⟨v', hv', rfl⟩, by rw [himg]; exact hnew⟩
+    · exfalso
+      exact hvk _ he (List.mem_map.2 ⟨_, hin, rfl⟩)
+  -- a copy mentions copies only
+  have hclosed : ∀ c ∈ m, c.uid ∉ uids op1 → ∀ mm ∈ A.mentions (V.read c.definition), ∀ a ∈ m,
+      a.alias = mm → a.uid ∉ uids op1 := by
+    intro c hc hnot mm hmm a ha ham
+    rcases mergeWith_origin hw1.1 hw1.2 hw2.1 hw2.2 hm c hc with ho | ⟨c2, hc2, hl⟩
+    · exact absurd (List.mem_map.2 ⟨c, ho, rfl⟩) hnot
+    · have hE := hM.emb2 (by rw [aliases_store]; exact hw2.2)
+      have hright := hM.right (V.cst c2) (List.mem_map.2 ⟨c2, hc2, rfl⟩)
+      have hcE : V.cst c = ⟨image trM (V.cst c2).uid, Q.app r1 (V.cst c2).alias, (V.cst c2).kind,
+          Q.renD r1 (V.cst c2).defn⟩ :=
+        SchemaGen.eq_of_uid_eq hnm (List.mem_map.2 ⟨c, hc, rfl⟩) hright
+          (by show c.uid = image trM c2.uid; rw [image_of_lookup' hl])
+      have hdef : V.read c.definition = Q.renD r1 (V.cst c2).defn := congrArg SchemaGen.Cst.defn hcE
+      have hres := hE.res (Q.renC r1 (V.cst c2)) (List.mem_map.2 ⟨V.cst c2, List.mem_map.2 ⟨c2, hc2, rfl⟩, rfl⟩)
+        (by show c2.uid ∈ SchemaGen.uids (V.store op2)
+            rw [uids_store]; exact List.mem_map.2 ⟨c2, hc2, rfl⟩)
+        mm (by show mm ∈ A.mentions (Q.renD r1 (V.cst c2).defn); rw [← hdef]; exact hmm)
+      have hfa : SchemaGen.findAliasL (V.store m) mm = some a.uid := by
+        rw [← ham]
+        exact SchemaGen.findAliasL_of_mem (s := V.store m) (by rw [aliases_store]; exact hcons.1.2)
+          (c := V.cst a) (List.mem_map.2 ⟨a, ha, rfl⟩)
+      rw [hfa] at hres
+      cases hw : SchemaGen.findAliasL ((V.store op2).map (Q.renC r1)) mm with
+      | none => rw [hw] at hres; cases hres
+      | some w =>
+        rw [hw] at hres
+        simp only [Option.map_some, Option.some.injEq] at hres
+        have hwu := SchemaGen.findAliasL_uids hw
+        rw [Q.uids_ren, uids_store] at hwu
+        rcases List.mem_map.1 hwu with ⟨c3, hc3, rfl⟩
+        rcases h2 c3 hc3 with ⟨s3, _, hl3, hnew3, -⟩
+        rw [hres, image_of_lookup' hl3]
+        exact hnew3
+  obtain ⟨rkm, hrkm⟩ := SchemaGen.FullyCorrect.rank hA hnm hmc
+  obtain ⟨N, hN⟩ := exists_bound rkm (uids m)
+  refine stage_acyclic hA V H hVH hcons.1.1 hmc hR
+    (fun u => if u ∈ uids op1 then N + rkm u else rkm u) ?_
+  intro c hc hnk mm hmm a ha ham
+  have hfa : SchemaGen.findAliasL (V.store m) mm = some a.uid := by
+    rw [← ham]
+    exact SchemaGen.findAliasL_of_mem (s := V.store m) (by rw [aliases_store]; exact hcons.1.2)
+      (c := V.cst a) (List.mem_map.2 ⟨a, ha, rfl⟩)
+  have hlt : rkm a.uid < rkm c.uid := hrkm (V.cst c) (List.mem_map.2 ⟨c, hc, rfl⟩) mm hmm a.uid hfa
+  by_cases hak : a.uid ∈ tkeys tq
+  · rcases List.mem_map.1 hak with ⟨e, he, hek⟩
+    obtain ⟨hk1, hvm, hvn⟩ := hshape e he
+    have ha1 : a.uid ∈ uids op1 := by rw [← hek]; exact hk1
+    have hcin : c.uid ∈ uids op1 := by
+      by_cases hcin : c.uid ∈ uids op1
+      · exact hcin
+      · exact absurd ha1 (hclosed c hc hcin mm hmm a ha ham)
+    rcases List.mem_map.1 hvm with ⟨a0, ha0, ha0u⟩
+    refine ⟨a0, ha0, by rw [ha0u]; exact hvk e he, by rw [ha0u, ← hek]; exact (hR.pairs e he).symm, ?_⟩
+    simp only [ha0u, hvn, hcin, if_true, if_false]
+    exact Nat.lt_of_lt_of_le (hN _ hvm) (Nat.le_add_right _ _)
+  · refine ⟨a, ha, hak, rfl, ?_⟩
+    by_cases hcin : c.uid ∈ uids op1
+    · by_cases hain : a.uid ∈ uids op1
+      · simp only [hcin, hain, if_true]; omega
+      · simp only [hcin, hain, if_true, if_false]
+        exact Nat.lt_of_lt_of_le (hN _ (List.mem_map.2 ⟨a, ha, rfl⟩)) (Nat.le_add_right _ _)
+    · have hain := hclosed c hc hcin mm hmm a ha ham
+      simp only [hcin, hain, if_false]; exact hlt
+
+/-- **synth_correct**: the semantic clause for the WHOLE synthesis `BinarySynthes` = `MergeWith` →
+(`TranslateEquations` + `Equate` | nothing) → `DeleteDuplicates` → `ResetAliases`, any table (empty or
+not), whatever the duplicate removal finds. For every lawful, equivariant, content-only, `Homomorphic`
+analysis seen through a compatible view; operands with distinct uids and aliases, table keys distinct,
+outcome ok, both operands FULLY CORRECT (analysed from scratch). There are the merged schema `m`, the
+merge renaming `m1` and THE final renaming `F1` of `synth_exact` (`IsSynthRenaming … F1 (F1 ∘ m1)`:
+alias of a constituent of operand 1 / of a copy ↦ alias of its image in the result, every name that is
+no alias of `m` stays — this determines `F1`) such that for every admissible renaming `r1` of the analysis acting like `m1` on operand 2:
+
+IF the table equates LIKE WITH LIKE, at operand level: for every equation the entry (status,
+typification) of the key in operand 1 and the entry of the value in operand 2 (carried into the merged
+schema by `r1`) coincide once the identification `F1` is substituted — base set with base set, constant
+with constant, derived constituents of equal typification up to the identification —, and the result
+does not depend on itself (`AcyclicSchema res`: the code's "the value is not reachable from the key";
+AUTOMATIC — second alternative of the hypothesis — when no equation is turned round, `swapNeeded k v =
+false` for every pair, in particular when key and value have one kind: then the copies mention copies
+only, every key is in operand 1, every value a copy, and the duplicate removal creates no cycle),
+
+THEN the result is fully correct, and the image of every operand constituent has the operand's entry
+with the final renaming / identification applied: `homI F1` for operand 1, `homI F1 ∘ renI r1` for
+operand 2. Nothing is asked of the pairs the duplicate removal identifies. -/
+theorem synth_correct (hA : Lawful A) (hC : ContentOnly A) (Q : Equivariance A) (H : SchemaGen.Homomorphic A)
+    (V : View D) (hV : V.Compatible A Q) (hVH : V.CompatibleHom H)
+    {g : Names} {freshs : List Nat} {semOk : Bool} {op1 op2 res : Schema} {eqs : List Entry} {tr1 tr2 : Tr}
+    (hw1 : WF op1) (hw2 : WF op2) (hk : (tkeys eqs).Nodup)
+    (h : synth g freshs semOk op1 op2 eqs = .ok res tr1 tr2)
+    (hc1 : FullyCorrect A (V.store op1)) (hc2 : FullyCorrect A (V.store op2)) :
+    ∃ m trM m1 F1, mergeWith g freshs op1 op2 = some (m, trM) ∧ IsMergeRenaming op2 m trM m1 ∧
+      IsSynthRenaming op1 op2 res tr1 tr2 F1 (fun x => F1 (m1 x)) ∧ (∀ x, x ∉ aliases m → F1 x = x) ∧
+      ∀ r1 : Q.Ren, ActsLike V Q r1 m1 op2 →
+        (∀ e0 ∈ eqs, H.homI F1 (entryOf A (V.store op1) e0.key) =
+          H.homI F1 (Q.renI r1 (entryOf A (V.store op2) e0.value))) →
+        (AcyclicSchema V A res ∨ ∀ e0 ∈ eqs, ∀ k ∈ op1, ∀ v ∈ op2, k.uid = e0.key → v.uid = e0.value →
+          swapNeeded k v = false) →
+        FullyCorrect A (V.store res) ∧
+        (∀ c ∈ op1, ∀ s ∈ res, lookup tr1 c.uid = some s.uid →
+          entryOf A (V.store res) s.uid = H.homI F1 (entryOf A (V.store op1) c.uid)) ∧
+        (∀ c ∈ op2, ∀ s ∈ res, lookup tr2 c.uid = some s.uid →
+          entryOf A (V.store res) s.uid = H.homI F1 (Q.renI r1 (entryOf A (V.store op2) c.uid))) := by
+  rcases synth_core hw1 hw2 hk h with
+    ⟨m, trM, trE, tq, R, m1, hm, hR, hm1, h1, h2, hall, hentry, hpresent, _, hvk⟩
+  have hcons := merge_consistent hw1 hw2 hm
+  refine ⟨m, trM, m1, R, hm, hm1, synth_core_renaming hw1 hw2 hm hR hm1 h1 h2, hR.off, ?_⟩
+  intro r1 hr1 hlike hac'
+  have hac : AcyclicSchema V A res := by
+    rcases hac' with hac | hns
+    · exact hac
+    · exact synth_acyclic_aux hA hC Q H V hV hVH hw1 hw2 hm hR hm1 (fun c hc => (h1 c hc).1) h2 hall hentry
+        hpresent hvk hc1 hc2 r1 hr1 hns
+  have hcap : NoCapture V A op1 op2 m := noCapture_of_correct hA H V m hw1.1 hw2.1 hc1 hc2
+  obtain ⟨e1, e2⟩ := merge_analysis hA hC Q V hV hw1 hw2 hm hm1 r1 hr1 hcap
+  have hmc := merge_correct hA hC Q V hV hw1 hw2 hm hm1 r1 hr1 hcap hc1 hc2
+  -- the two sides of an equation of the synthesis, in the merged schema
+  have hside : ∀ e0 ∈ eqs, e0.key ∈ uids m ∧ image trM e0.value ∈ uids m ∧
+      H.homI R (entryOf A (V.store m) e0.key) = H.homI R (entryOf A (V.store m) (image trM e0.value)) := by
+    intro e0 he0
+    rcases List.mem_map.1 (hall e0 he0).1 with ⟨k, hk1, hku⟩
+    rcases List.mem_map.1 (hall e0 he0).2 with ⟨v, hv2, hvu⟩
+    rcases h2 v hv2 with ⟨v', hv', hlM, -⟩
+    have himg : image trM e0.value = v'.uid := by rw [← hvu]; exact image_of_lookup' hlM
+    refine ⟨by rw [← hku]; exact List.mem_map.2 ⟨k, (h1 k hk1).1, rfl⟩,
+      by rw [himg]; exact List.mem_map.2 ⟨v', hv', rfl⟩, ?_⟩
+    rw [himg, e2 v hv2 v' hv' hlM, ← hku, e1 k hk1, hku, hvu]
+    exact hlike e0 he0
+  have hvals : ∀ e ∈ tq, e.value ∈ uids m ∧ e.value ∉ tkeys tq := by
+    intro e he
+    refine ⟨?_, hvk e he⟩
+    rcases hentry e he with ⟨e0, he0, rfl | rfl⟩
+    · exact (hside e0 he0).2.1
+    · exact (hside e0 he0).1
+  have hpl : PairsLike V A H m tq R := by
+    intro e he
+    rcases hentry e he with ⟨e0, he0, rfl | rfl⟩
+    · exact (hside e0 he0).2.2
+    · exact (hside e0 he0).2.2.symm
+  obtain ⟨hent, hfc⟩ := stage_correct hA hC V H hVH hcons.1.1 hmc hR hvals hpl hac
+  refine ⟨hfc, fun c hc s _ hl => ?_, fun c2 hc2 s _ hl => ?_⟩
+  · have hs : s.uid = image trE c.uid := Option.some.inj (hl.symm.trans (h1 c hc).2)
+    rw [hs, hent c (h1 c hc).1, e1 c hc]
+  · rcases h2 c2 hc2 with ⟨s', hs', hlM, _, _, _, hl2⟩
+    have hs : s.uid = image trE s'.uid := Option.some.inj (hl.symm.trans hl2)
+    rw [hs, hent s' hs', e2 c2 hc2 s' hs' hlM]
+
+/-- operand 2 of the example: the same schema as `opA` -/
+def opC : Schema :=
+  [ { uid := 1, alias := "X1", kind := 1, definition := [], rest := [[], [], []] },
+    { uid := 2, alias := "D1", kind := 6, definition := [.mention "X1", .sym "∪", .mention "X1"], rest := [[], [], []] } ]
+/-- the merged schema: the copies are `X2` (77), `D2 := X2 ∪ X2` (78) -/
+def mergedAC : Schema × Tr :=
+  ( [ { uid := 1, alias := "X1", kind := 1, definition := [], rest := [[], [], []] },
+      { uid := 77, alias := "X2", kind := 1, definition := [], rest := [[], [], []] },
+      { uid := 2, alias := "D1", kind := 6, definition := [.mention "X1", .sym "∪", .mention "X1"], rest := [[], [], []] },
+      { uid := 78, alias := "D2", kind := 6, definition := [.mention "X2", .sym "∪", .mention "X2"], rest := [[], [], []] } ],
+    [(1, 77), (2, 78)] )
+/-- the table `X1 (A) = X1 (C)` -/
+def eqsAC : List Entry := [{ key := 1, value := 1 }]
+/-- the result: after the identification of the base sets the two `D1` are token-identical and
+`DeleteDuplicates` merges them — `X1`, `D1` -/
+def resAC : Schema :=
+  [ { uid := 77, alias := "X1", kind := 1, definition := [], rest := [[], [], []] },
+    { uid := 2, alias := "D1", kind := 6, definition := [.mention "X1", .sym "∪", .mention "X1"], rest := [[], [], []] } ]
+
+/-- non-vacuity of `synth_correct`: the closed hypotheses on `A`, `C` with the table `X1 = X1`; the
+equation is not turned round -/
+example : WF opA ∧ WF opC ∧ (tkeys eqsAC).Nodup ∧
+    synth realNames [77, 78] true opA opC eqsAC = .ok resAC [(1, 77), (2, 2)] [(1, 77), (2, 2)] ∧
+    FullyCorrect fragA (fragView.store opA) ∧ FullyCorrect fragA (fragView.store opC) ∧
+    AcyclicSchema fragView fragA resAC ∧ swapNeeded opA[0] opC[0] = false :=
+  ⟨by unfold WF; decide, by unfold WF; decide, by decide, by decide, by decide, by decide,
+    ⟨fun u => if u = 77 then 0 else 1, by decide⟩, by decide⟩
+
+/-- … and the theorem applied to it, the like-with-like hypothesis discharged for THE final renaming
+(`F1 X1 = F1 X2 = X1` by `IsSynthRenaming`; the base sets have the entries ℬ(X1), ℬ(X2)), acyclicity by
+the second alternative: the result `X1, D1` is fully correct and `D1` keeps its entry -/
+example : FullyCorrect fragA (fragView.store resAC) ∧
+    entryOf fragA (fragView.store resAC) 2 = { status := .verified, ty := some "X1" } := by
+  obtain ⟨m, trM, m1, F1, hm, hm1, hF, hoff, hmain⟩ := synth_correct fragA_lawful fragA_contentOnly
+    fragEquivariance fragHom fragView fragView_compatible fragView_compatibleHom (g := realNames)
+    (freshs := [77, 78]) (semOk := true) (op1 := opA) (op2 := opC) (eqs := eqsAC) (res := resAC)
+    (tr1 := [(1, 77), (2, 2)]) (tr2 := [(1, 77), (2, 2)]) (by unfold WF; decide) (by unfold WF; decide)
+    (by decide) (by decide) (by decide) (by decide)
+  have e : some (m, trM) = some mergedAC := by rw [← hm]; decide
+  simp only [Option.some.injEq] at e
+  obtain ⟨rfl, rfl⟩ : m = mergedAC.1 ∧ trM = mergedAC.2 := by rw [← e]; exact ⟨rfl, rfl⟩
+  have a1 : m1 "X1" = "X2" := hm1.1 opC[0] (by decide) mergedAC.1[1] (by decide) (by decide)
+  have a2 : m1 "D1" = "D2" := hm1.1 opC[1] (by decide) mergedAC.1[3] (by decide) (by decide)
+  have hr1 : ActsLike fragView fragEquivariance bijAB m1 opC := by
+    refine ⟨fun n hn => ?_, fun _ _ => trivial⟩
+    have : n = "X1" ∨ n = "D1" ∨ n = "X1" := by
+      simp only [tokNames, opC, aliases, mentionNames] at hn
+      simpa using hn
+    rcases this with rfl | rfl | rfl
+    · exact a1.symm ▸ (by decide)
+    · exact a2.symm ▸ (by decide)
+    · exact a1.symm ▸ (by decide)
+  have f1 : F1 "X1" = "X1" := hF.alias1 opA[0] (by decide) resAC[0] (by decide) (by decide)
+  have f2 : F1 "X2" = "X1" := by
+    have := hF.alias2 opC[0] (by decide) resAC[0] (by decide) (by decide)
+    rw [show opC[0].alias = "X1" from rfl, a1] at this
+    exact this
+  have hlike : ∀ e0 ∈ eqsAC, fragHom.homI F1 (entryOf fragA (fragView.store opA) e0.key) =
+      fragHom.homI F1 (fragEquivariance.renI bijAB (entryOf fragA (fragView.store opC) e0.value)) := by
+    intro e0 he0
+    have : e0 = { key := 1, value := 1 } := by simpa [eqsAC] using he0
+    subst this
+    have e1 : entryOf fragA (fragView.store opA) 1 = { status := .verified, ty := some "X1" } := by decide
+    have e2 : fragEquivariance.renI bijAB (entryOf fragA (fragView.store opC) 1) =
+        { status := .verified, ty := some "X2" } := by decide
+    rw [e1, e2]
+    simp only [fragHom, SchemaGen.renInfo, Option.map_some, f1, f2]
+  obtain ⟨hfc, hent1, _⟩ := hmain bijAB hr1 hlike (Or.inr (by decide))
+  refine ⟨hfc, ?_⟩
+  have := hent1 opA[1] (by decide) resAC[1] (by decide) (by decide)
+  have e3 : entryOf fragA (fragView.store opA) (opA[1]).uid = { status := .verified, ty := some "X1" } := by decide
+  rw [e3] at this
+  rw [show (resAC[1]).uid = 2 from rfl] at this
+  rw [this]
+  simp only [fragHom, SchemaGen.renInfo, Option.map_some, f1]
+/-- **synth_correct_merged**: the statement `synth_correct_statement` recorded above (all semantic
+hypotheses at MERGED level: `LikeWithLike` for everything with one image, `AcyclicSchema` of the schema
+before `ResetAliases`, admissible renamings for the merge and for `ResetAliases`) holds — the plain
+composition `merge_correct` → `equate_correct` → `rename_fully_correct`. `synth_correct` is the
+stronger form (like with like on the pairs only and at operand level, no renaming for `ResetAliases`,
+acyclicity derived for unturned tables, the entries of the images). -/
+theorem synth_correct_merged : synth_correct_statement := by
+  intro D I A hA hC Q H V hV hVH g freshs semOk op1 op2 res eqs tr1 tr2 hw1 hw2 hk hne h hc1 hc2 hyp
+  unfold synth at h
+  cases hm : mergeWith g freshs op1 op2 with
+  | none => rw [hm] at h; cases h
+  | some p =>
+    obtain ⟨m, trM⟩ := p
+    rw [hm] at h
+    simp only at h
+    have hcons := merge_consistent hw1 hw2 hm
+    have hempty : eqs.isEmpty = false := by
+      cases eqs with
+      | nil => exact absurd rfl hne
+      | cons _ _ => rfl
+    simp only [hempty, Bool.false_eq_true, if_false] at h
+    split at h
+    · cases h
+    · cases hq : equate semOk m (translateEquations m trM eqs) with
+      | none => rw [hq] at h; cases h
+      | some q =>
+        obtain ⟨e, trE⟩ := q
+        rw [hq] at h
+        simp only at h
+        cases hr : resetAliases g e with
+        | none => rw [hr] at h; cases h
+        | some r' =>
+          rw [hr] at h
+          simp only [Res.ok.injEq] at h
+          obtain ⟨rfl, rfl, rfl⟩ := h
+          obtain ⟨hcap, hr1, hE⟩ := hyp m trM hm
+          obtain ⟨m1, hm1⟩ := merge_renaming_exists hw1 hw2 hm
+          obtain ⟨r1, hr1'⟩ := hr1 m1 hm1
+          have hmc := merge_correct hA hC Q V hV hw1 hw2 hm hm1 r1 hr1' hcap hc1 hc2
+          obtain ⟨hac, hlike, hρ⟩ := hE e trE hq
+          have hte := translateEquations_keeps m trM eqs hk
+          obtain ⟨Q0, hQ0, hall⟩ := equate_correct hA hC H V hVH hcons.1 hte.1 hq hmc
+          obtain ⟨_, hfe⟩ := hall Q0 hQ0 (hlike Q0 hQ0) hac
+          have hconE := equate_consistent hcons.1 hq
+          obtain ⟨ρ, rfl, hoff, _⟩ := resetAliases_eq hconE.1.2 hr
+          obtain ⟨r2, hr2⟩ := hρ ρ rfl
+          rw [store_substAliases V Q hV r2 hr2]
+          exact SchemaGen.rename_fully_correct hA Q r2 (by rw [uids_store]; exact hconE.1.1)
+            (by intro c' hc'; obtain ⟨c, hc, rfl⟩ := List.mem_map.1 hc'; exact hr2.good c hc) hfe
+
+/-- the schema after `Equate`, before `ResetAliases`, on the example -/
+def equatedAC : Schema × Tr :=
+  ( [ { uid := 77, alias := "X2", kind := 1, definition := [], rest := [[], [], []] },
+      { uid := 2, alias := "D1", kind := 6, definition := [.mention "X2", .sym "∪", .mention "X2"], rest := [[], [], []] } ],
+    [(1, 77), (78, 2)] )
+
+/-- non-vacuity of `synth_correct_merged`: its hypotheses hold on `A`, `C`, `X1 = X1` -/
+example : FullyCorrect fragA (fragView.store resAC) := by
+  refine synth_correct_merged fragA fragA_lawful fragA_contentOnly fragEquivariance fragHom fragView
+    fragView_compatible fragView_compatibleHom realNames [77, 78] true opA opC resAC eqsAC
+    [(1, 77), (2, 2)] [(1, 77), (2, 2)] (by unfold WF; decide) (by unfold WF; decide) (by decide)
+    (by decide) (by decide) (by decide) (by decide) ?_
+  intro m trM hm
+  have e : some (m, trM) = some mergedAC := by rw [← hm]; decide
+  simp only [Option.some.injEq] at e
+  obtain ⟨rfl, rfl⟩ : m = mergedAC.1 ∧ trM = mergedAC.2 := by rw [← e]; exact ⟨rfl, rfl⟩
+  refine ⟨noCapture_of_resolved _ _ _ (by decide) (by decide), fun m1 hm1 => ⟨bijAB, ?_, fun _ _ => trivial⟩, ?_⟩
+  · have a1 : m1 "X1" = "X2" := hm1.1 opC[0] (by decide) mergedAC.1[1] (by decide) (by decide)
+    have a2 : m1 "D1" = "D2" := hm1.1 opC[1] (by decide) mergedAC.1[3] (by decide) (by decide)
+    intro n hn
+    have : n = "X1" ∨ n = "D1" ∨ n = "X1" := by
+      simp only [tokNames, opC, aliases, mentionNames] at hn
+      simpa using hn
+    rcases this with rfl | rfl | rfl
+    · exact a1.symm ▸ (by decide)
+    · exact a2.symm ▸ (by decide)
+    · exact a1.symm ▸ (by decide)
+  · intro e trE hq
+    have e' : some (e, trE) = some equatedAC := by rw [← hq]; decide
+    simp only [Option.some.injEq] at e'
+    obtain ⟨rfl, rfl⟩ : e = equatedAC.1 ∧ trE = equatedAC.2 := by rw [← e']; exact ⟨rfl, rfl⟩
+    refine ⟨⟨fun u => if u = 77 then 0 else 1, by decide⟩, ?_, ?_⟩
+    · intro Q' hQ'
+      have q1 : Q' "X1" = "X2" := hQ'.aliasOf mergedAC.1[0] (by decide) equatedAC.1[0] (by decide) (by decide)
+      have q2 : Q' "X2" = "X2" := hQ'.aliasOf mergedAC.1[1] (by decide) equatedAC.1[0] (by decide) (by decide)
+      have all : ∀ c ∈ mergedAC.1, fragHom.homI Q' (entryOf fragA (fragView.store mergedAC.1) c.uid) =
+          { status := .verified, ty := some "X2" } := by
+        intro c hc
+        have : c = mergedAC.1[0] ∨ c = mergedAC.1[1] ∨ c = mergedAC.1[2] ∨ c = mergedAC.1[3] := by
+          simpa [mergedAC] using hc
+        have e0 : entryOf fragA (fragView.store mergedAC.1) 1 = { status := .verified, ty := some "X1" } := by decide
+        have e1 : entryOf fragA (fragView.store mergedAC.1) 77 = { status := .verified, ty := some "X2" } := by decide
+        have e2 : entryOf fragA (fragView.store mergedAC.1) 2 = { status := .verified, ty := some "X1" } := by decide
+        have e3 : entryOf fragA (fragView.store mergedAC.1) 78 = { status := .verified, ty := some "X2" } := by decide
+        rcases this with rfl | rfl | rfl | rfl
+        · show fragHom.homI Q' (entryOf fragA _ 1) = _
+          rw [e0]; simp only [fragHom, SchemaGen.renInfo, Option.map_some, q1]
+        · show fragHom.homI Q' (entryOf fragA _ 77) = _
+          rw [e1]; simp only [fragHom, SchemaGen.renInfo, Option.map_some, q2]
+        · show fragHom.homI Q' (entryOf fragA _ 2) = _
+          rw [e2]; simp only [fragHom, SchemaGen.renInfo, Option.map_some, q1]
+        · show fragHom.homI Q' (entryOf fragA _ 78) = _
+          rw [e3]; simp only [fragHom, SchemaGen.renInfo, Option.map_some, q2]
+      intro c hc d hd _
+      rw [all c hc, all d hd]
+    · intro ρ hρ
+      refine ⟨Bij.swap "X1" "X2", ?_, fun _ _ => trivial⟩
+      have := congrArg aliases hρ
+      simp only [resAC, equatedAC, aliases, substAliases, List.map_cons, List.map_nil, List.cons.injEq, and_true] at this
+      obtain ⟨b1, b2⟩ := this
+      intro n hn
+      have : n = "X2" ∨ n = "D1" ∨ n = "X2" := by
+        simp only [tokNames, equatedAC, aliases, mentionNames] at hn
+        simpa using hn
+      rcases this with rfl | rfl | rfl
+      · exact b1 ▸ (by decide)
+      · exact b2 ▸ (by decide)
+      · exact b1 ▸ (by decide)
 
 end CCVerif.SynthCorrect
